@@ -1,6 +1,6 @@
 package rt
 
-// Nil / zero argument values (the third, "nilable-types" instantiation of the call sites).
+// Nil / zero argument values (the "nilable-types" and "zero-types" instantiations of the call sites).
 //
 // The call sites never convert between strings and argument types themselves: a value is
 // created by Mk / MkY / MkS (from the position tag and the nil mask of the case) and read back
@@ -311,7 +311,7 @@ func (c *Cx) made(k int, got, want string, zero bool, what string) {
 func (c *Cx) countNil(k int, rendering string, zero, value bool) {
 	c.countKind(k, rendering, zero)
 	if zero && value && c.Gen == 1 && c.NNil == 1 {
-		key := fmt.Sprintf("%s/%s/%d", c.Member, c.Sub, k)
+		key := fmt.Sprintf("%s/%s/%s/%d", c.Variant, c.Member, c.Sub, k)
 		if !nilSeen[key] {
 			nilSeen[key] = true
 			c.W.Add("nil.member_positions."+c.Family, 1)
@@ -336,8 +336,9 @@ func (c *Cx) countKind(k int, rendering string, zero bool) {
 	}
 }
 
-// NilSite is one nilable-types registration of a generated call site.
+// NilSite is one nilable-types / zero-types registration of a generated call site.
 type NilSite struct {
+	Inst                string // "nilable-types" (nil-able kinds) or "zero-types" (struct, string, int, bool)
 	Family, Member, Sub string
 	N                   int    // argument positions of the evidence pair
 	Kinds               string // kind letter of every value position (len = number of value positions)
@@ -347,10 +348,34 @@ type NilSite struct {
 var NilSites []NilSite
 
 // RegNil is called from the init functions of the generated site packages.
-func RegNil(family, member, sub string, n int, kinds string, fn func(*Cx)) {
-	NilSites = append(NilSites, NilSite{family, member, sub, n, kinds, fn})
+func RegNil(inst, family, member, sub string, n int, kinds string, fn func(*Cx)) {
+	NilSites = append(NilSites, NilSite{inst, family, member, sub, n, kinds, fn})
 }
 
-// NilKey is the violation key suffix of a failed check of a case in which some argument (or
-// fork alternative) is nil / the zero value of its type: stable per member.
-func (c *Cx) NilKey(what string) string { return "nil-argument" }
+// HeldFail is a failed check of a case with a non-empty nil mask, kept until the control case
+// (the same case with a non-nil, non-zero value at every position) has been run.
+type HeldFail struct{ What, Detail string }
+
+// ReportHeld reports the held failures of c. A check that also fails in the control case
+// (controlFails[what]) is no matter of nil: it is reported under the general key
+// <member>/<what>, exactly as the other instantiations report it. A check that fails only
+// when some argument (or fork alternative) is nil / the zero value of its type is reported
+// under <member>/nil-argument.
+func (c *Cx) ReportHeld(controlFails map[string]bool) {
+	held := c.Held
+	c.Held, c.Hold = nil, false
+	for _, h := range held {
+		if controlFails[h.What] {
+			c.Fail(h.What, h.Detail+" (the same case with non-nil values at every position fails this check too)")
+			continue
+		}
+		c.ReportNil(h.What, h.Detail)
+	}
+}
+
+// ReportNil reports a failure that needs a nil / zero argument: key <member>/nil-argument.
+func (c *Cx) ReportNil(what, detail string) {
+	p := len(c.Kinds)
+	c.W.Violation(c.Idx, c.Member+"/nil-argument", fmt.Sprintf("%s [%s instantiation, construction %d of 2, arguments %v, fork alternatives %v]: %s: %s (the same case with non-nil, non-zero values at every position passes this check)",
+		c.Member, c.Variant, c.Gen, c.V[1:p+1], c.Y[1:p+1], what, detail), c.Witness())
+}
